@@ -24,8 +24,8 @@ Local Open Scope list_scope.
 (* Per-node pruning (the lemma SQL generation relies on as well: sql_model.py prunes every sub-query with
    columns_used_from_sources).  A node n accepted by the builders is asked for columns u' of its own.  Replace its
    sources by ANY other pipelines and run them on ANY other inputs: if source i and its replacement agree on
-   cols_from_sources n u' [i] (no column the original lacks, every requested column present, as many rows, the same
-   cells row by row), then n and the rebuilt node agree on u' in the same sense. *)
+   cols_from_sources n u' [i] (`agree`: no column the original lacks, every requested column present, as many rows,
+   the same cells row by row; both undefined counts as agreeing), then n and the rebuilt node agree on u'. *)
 Theorem C10_node_pruning_sound :
   forall fl (e e' : env) (n : op) (srcs' : list op) (u' : list string),
   builder_ok n = true -> incl u' (column_names n) ->
@@ -53,7 +53,7 @@ Theorem C10_columns_used_sound :
                 | _, _ => False
                 end) ->
   sem_gen fl p env = sem_gen fl p env'.
-Proof. intros fl p ids cn cu env env' OK IO CU EA. exact (covers_sound fl (rec_of cu) p env env' OK (columns_used_covers cn p ids cu CU IO) EA). Qed.
+Proof. exact cu_sound. Qed.
 Print Assumptions C10_columns_used_sound.
 
 (* the same for columns_used(using=u): the result RESTRICTED to u is blind to unreported columns *)
@@ -62,12 +62,7 @@ Theorem C10_columns_used_using_sound :
   builder_ok p = true -> ids_ok cn p ids -> columns_used_using p ids (Some u) = Some cu ->
   env_agree (rec_of cu) env env' ->
   out_agree u (sem_gen fl p env) (sem_gen fl p env').
-Proof.
-  intros fl p ids cn u cu env env' OK IO CU EA.
-  pose proof (covers_agree (rec_of cu) (fun _ _ => true) (fun _ _ _ => eq_refl) fl env env' EA p u OK
-                (columns_used_using_covers cn p ids (Some u) cu CU IO)) as H.
-  rewrite narrow_all in H. exact H.
-Qed.
+Proof. exact cu_using_sound. Qed.
 Print Assumptions C10_columns_used_using_sound.
 
 (* tree-shaped pipelines (no node object shared) need no ids *)
@@ -75,19 +70,19 @@ Theorem C10_columns_used_tree_sound :
   forall fl (p : op) (cu : list (string * list string)) (env env' : env),
   builder_ok p = true -> columns_used_tree p = Some cu -> env_agree (rec_of cu) env env' ->
   sem_gen fl p env = sem_gen fl p env'.
-Proof. intros fl p cu env env' OK CU EA. exact (covers_sound fl (rec_of cu) p env env' OK (columns_used_tree_covers p cu CU) EA). Qed.
+Proof. exact cu_tree_sound. Qed.
 Print Assumptions C10_columns_used_tree_sound.
 
 (* SECOND SENTENCE, meaning.  narrow_to cu p = p with every table description cut down to the reported columns (original
    order); restrict_env cu env = every input cut down to its reported columns.  In the reference semantics the narrowed
-   pipeline is defined iff the original is, and computes the same table: same column set, as many rows, and row by row
-   the same cell under every column name (the column ORDER may differ: an extend that overwrites an unreported column
-   appends it instead). *)
+   pipeline is defined iff the original is, and computes the same table (`table_equiv`): same column set, as many rows,
+   and row by row the same cell under every column name (the column ORDER may differ: an extend that overwrites an
+   unreported column appends it instead). *)
 Theorem C10_narrowed_pipeline_same_meaning :
   forall fl (p : op) (ids : idt) (cn : nat -> list string) (cu : list (string * list string)) (env : env),
   builder_ok p = true -> ids_ok cn p ids -> columns_used p ids = Some cu ->
   out_equiv (sem_gen fl p env) (sem_gen fl (narrow_to cu p) (restrict_env cu env)).
-Proof. intros fl p ids cn cu env OK IO CU. exact (covers_narrow_sound fl cu p env OK (columns_used_covers cn p ids cu CU IO)). Qed.
+Proof. exact cu_narrow_meaning. Qed.
 Print Assumptions C10_narrowed_pipeline_same_meaning.
 
 (* SECOND SENTENCE as stated, guarded by "the builders accept the narrowed rebuild" (the guard of known finding
@@ -97,26 +92,17 @@ Theorem C10_narrowing_sound :
   builder_ok p = true -> ids_ok cn p ids -> columns_used p ids = Some cu ->
   builder_ok (narrow_to cu p) = true ->
   out_same (sem_gen fl p env) (sem_gen fl (narrow_to cu p) (restrict_env cu env)).
-Proof. intros fl p ids cn cu env OK IO CU OK'. exact (covers_narrow_sound_guarded fl cu p env OK (columns_used_covers cn p ids cu CU IO) OK'). Qed.
+Proof. exact cu_narrow_sound. Qed.
 Print Assumptions C10_narrowing_sound.
 
 (* ... and the guard can fail: t[x,y,z].drop_columns([y]).extend({w: x + 1}).select_columns([w]) reports {t: {x}}; the
    narrowed table description [x] makes drop_columns([y]) raise "dropping unknown columns".  (Replayed against the real
    code on every run; DESIGN section 10 item 27.) *)
-Definition C10_witness : op :=
-  OSelectCols (OExtend (ODropCols (OTable "t" ["x"; "y"; "z"]) ["y"])
-                       [("w", EOp "+" [ECol "x"; EConst (VNum 1)])] false (mkwin [] [] []))
-              ["w"].
-Definition C10_witness_ids : idt := IdT 0 [IdT 1 [IdT 2 [IdT 3 []]]].
 Theorem C10_narrowing_rebuild_refuted :
   exists (p : op) (ids : idt) (cu : list (string * list string)),
     builder_ok p = true /\ ids_ok (cn_of p ids) p ids /\ columns_used p ids = Some cu /\ cu = [("t", ["x"])] /\
     builder_ok (narrow_to cu p) = false.
-Proof.
-  exists C10_witness, C10_witness_ids, [("t", ["x"])].
-  split; [vm_compute; reflexivity|]. split; [apply ids_okb_ok; vm_compute; reflexivity|].
-  split; [vm_compute; reflexivity|]. split; [reflexivity|vm_compute; reflexivity].
-Qed.
+Proof. exact narrow_rebuild_refuted. Qed.
 Print Assumptions C10_narrowing_rebuild_refuted.
 
 (* ------------------------------------------------------------------ the hypotheses are satisfiable *)
@@ -138,7 +124,7 @@ Proof. split; [vm_compute; reflexivity|]. split; [apply ids_okb_ok; vm_compute; 
 Example C10_identity_matters :
   columns_used ex_join ex_ids_apart = Some [("t", ["a"; "c"; "b"; "d"])] /\ columns_used_tree ex_join = Some [("t", ["a"; "c"; "b"; "d"])].
 Proof. split; vm_compute; reflexivity. Qed.
-(* a concrete perturbation the theorem covers: column d (and the unreported b of the witness) may change freely *)
+(* a concrete perturbation the theorem covers: everything but column x differs, even the column lists *)
 Example C10_input_agree_example :
   input_agree ["x"] (mktable ["x"; "y"] [[VNum 1; VNum 2]; [VNum 3; VNull]]) (mktable ["y"; "x"; "q"] [[VStr "n"; VNum 1; VNull]; [VNum 7; VNum 3; VNum 0]]).
 Proof. repeat constructor; intros c [<-|[]]; reflexivity. Qed.
